@@ -284,6 +284,10 @@ def build(run):
         lvl1 += [C.Division(a_, twice()) for a_ in (f, g, c2, x[0])] + [C.Division(twice(), a_) for a_ in (f, g)] + [ufl.conditional(ufl.lt(twice(), c2), a_, twice()) for a_ in (f, g)]
         tens += [ufl.as_vector([twice(), a_]) for a_ in (f, g, c2)] + [ufl.as_vector([a_, twice()]) for a_ in (f, g)]
         tens += [ufl.as_tensor(A[i, 0], (i,)), ufl.as_tensor(A[j, 1], (j,)), ufl.as_tensor(A[0, i], (i,))]
+        # variable-arity nodes one of whose operand lists is a PREFIX of the other's, the common operands being equal but separately built objects
+        tens += [ufl.as_vector([twice(), g]), ufl.as_vector([twice(), g, c1]), ufl.as_vector([twice(), g, c1, f]), ufl.as_vector([2 * f, g]), ufl.as_vector([2 * f, g, c2])]
+        lvl1 += [C.ExprList(twice(), f), C.ExprList(twice(), f, g), C.ExprList(twice()), C.ExprList(2 * f, twice()), C.ExprList(2 * f, twice(), c1)]
+        lvl1 += [ufl.inner(ufl.as_vector([2 * f, g]), ufl.as_vector([2 * f, g])), ufl.inner(ufl.as_vector([2 * f, g, c1]), ufl.as_vector([2 * f, g, c1]))]
         tens += [C.Argument(W, 5, 0), C.Argument(W, 5, 1), C.Argument(W, 6, 1)]      # (one number and part: one space)
         lvl1 += [C.Product(C.IntValue(2), C.Argument(V, 3, 0)), C.Product(C.IntValue(2), C.Argument(V, 3, 1))]
         return [e for e in scal + lvl1 + open_idx if isinstance(e, C.Expr)], tens
